@@ -204,6 +204,23 @@ def run(chk, ctx):
                         T.show(dp.consumed)),
                        site='pamqp/encode.py::decimal / '
                        'pamqp/decode.py::decimal')
+    from .. import tsrules
+    for cons, okk, why in tsrules.decimal_sign_rule(ctx):
+        chk.ob('C03.S', cons, okk, why, site='pamqp/encode.py::decimal')
+    chk.rule('C03.Z', 'datetime / struct_time values are converted to the '
+             'absolute instant they denote (aware as is, naive as UTC, '
+             'struct_time by timegm)')
+    tsres, _n = tsrules.timestamp_operands(ctx)
+    for cons, okk, why in tsres:
+        chk.ob('C03.Z', cons, okk, why, site='pamqp/encode.py::timestamp')
+    for cons, okk, why in tsrules.table_key_rule(ctx):
+        if okk is None:
+            chk.undecide('C03.C', cons, why)
+        else:
+            chk.ob('C03.C', cons, okk, why,
+                   detail={'expected': 'keys of at most 128 characters are '
+                           'emitted unchanged'},
+                   site='pamqp/encode.py::field_table')
     # ---- containers
     container_checks(chk, ctx, decs)
     chk.assume('Decimal arithmetic rebuilds raw * 10^-scale exactly; IEEE '
